@@ -168,6 +168,15 @@ def register_methods(reg, ctx):
         ensures=[("member", "same(result, %s[ite(item < 0, item + length(%s), item)])" % (MEM, MEM))], modifies=[])
 
 
+    # by unique name: the member whose CURRENT name equals the key (members are public scene-graph nodes and can be renamed directly)
+    NM = "typed(%s[k], 'Observer0D').name == item" % MEM
+    NMJ = "typed(%s[j], 'Observer0D').name == item" % MEM
+    reg.contract(B, "Observer0DGroup.__getitem__", PROP, name='str', attrs=dict(A, name='str'), sorts={"item": "str"}, requires=["not is_none(%s)" % MEM],
+        raises={"ValueError": "not exists(k, 0 <= k and k < length(%s) and %s and forall(j, 0 <= j and j < length(%s) and %s, j == k))"
+                % (MEM, NM, MEM, NMJ)},
+        ensures=[("unique_name", "exists(k, 0 <= k and k < length(%s) and same(result, %s[k]) and %s)" % (MEM, MEM, NM))], modifies=[])
+
+
 _register_props = register
 
 
@@ -193,12 +202,65 @@ def _structure(ctx, eng):
 GENERATORS = [_structure]
 
 
+_REPLAY_CACHE = {}
+
+
 def native_replay(ctx, o):
     """decorator-target: assigning the group attribute on a real (empty) group must not raise AttributeError."""
-    if not o.name.endswith('/decorator-target'):
-        return None
-    cls, attr = o.name.split('/')[-2].split('.')
     from replaylib.native import run_native
+    if not o.name.endswith('/decorator-target'):
+        if 'Observer0DGroup.' not in o.name:
+            return None
+        # history replay on real groups: lookups by name / index interleaved with add, rename (through the group and through the member)
+        # and re-assignment; every answer is compared with an independent scan of the members' current names
+        code = '''
+import warnings; warnings.simplefilter("ignore")
+from cherab.tools.observers.group import SightLineGroup, FibreOpticGroup, PixelGroup, TargettedPixelGroup
+from raysect.optical.observer import SightLine, FibreOptic, Pixel, TargettedPixel
+from raysect.primitive import Sphere
+bad = []
+def expect(g, key):
+    m = [o for o in g.observers if o.name == key]
+    return m[0] if len(m) == 1 else ValueError
+def look(g, key):
+    try:
+        return g[key]
+    except ValueError:
+        return ValueError
+def check(tag, g):
+    for key in ("a", "b", "c", "uno", "zz"):
+        got, want = look(g, key), expect(g, key)
+        if got is not want:
+            bad.append({"class": type(g).__name__, "after": tag, "key": key, "names": list(g.names),
+                        "got": getattr(got, "name", "ValueError"), "expected": getattr(want, "name", "ValueError")})
+    for i, o in enumerate(g.observers):
+        if g[i] is not o or o.parent is not g:
+            bad.append({"class": type(g).__name__, "after": tag, "index": i})
+for G, O, kw in ((SightLineGroup, SightLine, {}), (FibreOpticGroup, FibreOptic, {}), (PixelGroup, Pixel, {}),
+                 (TargettedPixelGroup, TargettedPixel, {"targets": [Sphere(0.1)]})):
+    try:
+        obs = [O(name=n, **kw) for n in ("a", "b", "c")]
+    except Exception:
+        obs = [O(**kw) for n in range(3)]
+        for o, n in zip(obs, ("a", "b", "c")): o.name = n
+    g = G(observers=obs)
+    check("construction", g)
+    g[1].name = "uno"; check("member renamed directly", g)
+    g.names = ["a", "a", "c"]; check("names assigned with a duplicate", g)
+    obs[1].name = "b"; check("duplicate resolved through the member", g)
+    extra = O(**kw); extra.name = "zz"; g.add_observer(extra); check("add_observer", g)
+    extra.name = "c"; check("added member renamed to an existing name", g)
+    g.observers = obs[:2]; check("observers re-assigned", g)
+print(json.dumps({"bad": bad[:4], "nbad": len(bad)}))
+'''
+        if 'history' not in _REPLAY_CACHE:
+            _REPLAY_CACHE['history'] = run_native(ctx, code, timeout=300)
+        out = _REPLAY_CACHE['history']
+        exp = 'group[name] returns the member whose current name is unique and equal to the key, else ValueError; group[i] the i-th member'
+        if out and out.get('nbad'):
+            return {'confirmed': True, 'input': out['bad'][0], 'observed': out, 'expected': exp}
+        return {'confirmed': False, 'input': None, 'observed': out, 'expected': exp}
+    cls, attr = o.name.split('/')[-2].split('.')
     code = '''
 import cherab.tools.observers.group as G, cherab.tools.observers.group.spectroscopic as S, warnings
 warnings.simplefilter("ignore")
